@@ -111,7 +111,8 @@ Proof. exact ToCsvWriter.fix_line_conservative. Qed.
 Print Assumptions fix_line_conservative.
 
 Example fix_line_conservative_hyp :
-  forallb plain_cell [[120; 44; 34]; []; [10; 32]] = true /  fix_line [[120; 44; 34]; []; [10; 32]] = [34; 120; 44; 34; 34; 34; 44; 44; 34; 10; 32; 34; 10].
+  forallb plain_cell [[120; 44; 34]; []; [10; 32]] = true /\
+  fix_line [[120; 44; 34]; []; [10; 32]] = [34; 120; 44; 34; 34; 34; 44; 44; 34; 10; 32; 34; 10].
 Proof. vm_compute. auto. Qed.
 
 (* 7. the code before the repairs does NOT meet the specification (findings F-C18a..d, g) *)
